@@ -1867,6 +1867,17 @@ func (bc *Blockchain) AddBlock(block *block.Block) error {
 		if expectedH != block.Hash() {
 			return fmt.Errorf("invalid block: hash mismatch: expected %s, got %s", expectedH.StringLE(), block.Hash().StringLE())
 		}
+		// Witness is not a part of the hash, so the block can have any garbage
+		// instead of the witness of the known (and verified) header.
+		if !bc.config.SkipBlockVerification {
+			prevHeader, err := bc.GetHeader(block.PrevHash)
+			if err != nil {
+				return fmt.Errorf("previous header %d (%s) was not found: %w", block.Index-1, block.PrevHash.StringLE(), err)
+			}
+			if err = bc.verifyHeaderWitnesses(&block.Header, prevHeader); err != nil {
+				return fmt.Errorf("invalid block: %w", err)
+			}
+		}
 	}
 	if !bc.config.SkipBlockVerification {
 		merkle := block.ComputeMerkleRoot()
